@@ -1318,7 +1318,45 @@ def generic_rules(prop, index, rep):
         ng = guard_object_rule(index, rep, rid2, mods)
         ng += stale_snapshot_rule(index, rep, rid2, mods)
         ng += found_or_empty_rule(index, rep, rid2, mods)
+        ng += method_tested_rule(index, rep, rid2, mods)
         rep.ob(rid2, "src/dendropy", "%d nested loops and %d None-guards in the property's modules examined" % (nl, ng), True, nontrivial=nl + ng > 0)
+
+
+_PLAIN_METHODS = {}
+
+
+def _plain_methods(index):
+    """names that are plain methods wherever they are defined in the repository: never a property, a class attribute
+    or an instance attribute stored by any function."""
+    r = _PLAIN_METHODS.get(id(index))
+    if r is None:
+        meth, other = set(), set()
+        for ci in index.classes.values():
+            for name, f in ci.methods.items():
+                decs = [norm(d) for d in f.node.decorator_list]
+                (other if any("property" in d or "setter" in d or "getter" in d for d in decs) else meth).add(name)
+            other |= set(ci.class_attrs)
+        for fi in index.functions.values():
+            other |= {w.attr for w in writes_in(fi.node) if w.kind == "store"}
+        r = _PLAIN_METHODS[id(index)] = meth - other
+    return r
+
+
+def method_tested_rule(index, rep, rid, modules):
+    """a method is called, not tested: `if obj.is_something:` on a name that is a plain method everywhere in the
+    repository tests the bound method object - always true - instead of its answer."""
+    pm = _plain_methods(index)
+    n = 0
+    for m in modules:
+        for fi in index.functions_in_module(m):
+            g = cfg_of(fi)
+            for t in g.nodes:
+                if t.kind == "test" and isinstance(t.ast, ast.Attribute):
+                    n += 1
+                    if t.ast.attr in pm:
+                        rep.check(False, rid, fi.qualname, "method `%s` tested without being called" % t.ast.attr, fn_where(fi, t.stmt), "",
+                                  "%s tests `%s` in `%s`: `%s` is a method (not a property), so the test looks at the bound method object, which is always true - the branch is taken whatever the method would have answered" % (fi.qualname, norm(t.ast), norm_stmt(t.stmt)[:60], t.ast.attr))
+    return n
 
 
 _BORROW_CACHE = {}
